@@ -105,7 +105,8 @@ fn qty_of(m: Magnitude, sel: QtySel, open_abs: Decimal) -> Decimal {
         _ => unit * Decimal::from(10),
     };
     // keep quantities representable without growth of scale over many halvings
-    q.round_dp(12).max(Decimal::new(1, 12))
+    // bounded so that no sequence of doublings can overflow Decimal's 96-bit mantissa
+    q.round_dp(12).max(Decimal::new(1, 12)).min(unit * Decimal::from(1_000_000))
 }
 
 /// Resolve the selectors against the running net quantity (pure function of the case).
@@ -350,6 +351,22 @@ fn fill_spec() -> impl Strategy<Value = FillSpec> {
 impl Check for PositionLedger {
     type Case = PositionCase;
     const NAME: &'static str = "position_ledger";
+
+    fn normalise(mut case: PositionCase) -> PositionCase {
+        for f in &mut case.fills {
+            f.price_m = 1 + f.price_m % 99_999;
+            f.fee_rate %= 2000;
+            f.dt %= 5000;
+            if let QtySel::Fresh(m, s) = f.qty {
+                f.qty = QtySel::Fresh(1 + m % 9_999, s % 4);
+            }
+        }
+        if case.fills.is_empty() {
+            case.fills.push(FillSpec { buy: true, price_m: 100, price_s: 0, qty: QtySel::Pool(0), fee_rate: 0, dt: 0 });
+        }
+        case
+    }
+
 
     fn strategy(tier: Tier) -> BoxedStrategy<PositionCase> {
         let max = match tier {
